@@ -137,3 +137,56 @@ Print Assumptions C04_tables_is_source.
 Theorem C04_pat_data_is_source : to_pat mux_pm = pat_data.
 Proof. exact to_pat_mux_pm. Qed.
 Print Assumptions C04_pat_data_is_source.
+
+(* ---- the packetisation is the source ----
+   WriteData as a whole: Gen/MuxGen.v translates muxer.go's WriteData up to its packetisation loop and takes the rest as a
+   parameter; go/gen (writegen.go) translates that rest (the loop with its two kinds of packet, the adaptation field
+   shared between the packet under construction and the caller's MuxerData, the calls of writePESData and writePacket -
+   themselves translated from data_pes.go / packet.go and proved equal to the model in C11 / C12 -, the continuity counter,
+   the final reset) into Gen/WriteGen.v, Muxer_WriteData_rest.  For every state and argument on which the model's write_data
+   does not panic, the translated prefix applied to the translated rest returns the model's result class and count, hands
+   the io.Writer the model's Write calls in order and leaves the model's state (stream contexts compared as maps).
+   An edit of the loop (the stuffing condition, where the counter is taken, which packet carries PUSI, ...) regenerates
+   Gen/WriteGen.v and this theorem (Proofs/WriteGenMux.v) stops checking. *)
+Require Import Gen.WriteGen Proofs.WriteGenBase Proofs.WriteGenEq Proofs.WriteGenMux.
+Theorem C04_write_data_is_source : forall s d pb mb buf,
+  pa_res (snd (write_data s d)) <> Panic ->
+  exists s',
+    Muxer_WriteData_until_loop calc_descriptor_length calc_pmt_section_length g_write ge_get to_pat g_wpsi g_wpkt
+      (wd_ret_src s) (wd_rest_src s)
+      (@nil (list Z)) C_MpegTsPacketSize (ms_period s) mux_pm (ms_pm_updated s) (pmt_of s) (ms_pmt_updated s)
+      (ms_pat_version s) (ms_pmt_version s) (ms_pat_cc s) (ms_pmt_cc s) pb mb buf (ms_es s) (ms_retransmit s) d
+    = Some (s', flat_of (snd (write_data s d))) /\ mstate_eqv s' (fst (write_data s d)).
+Proof. exact write_data_is_source. Qed.
+Print Assumptions C04_write_data_is_source.
+
+(* Muxer.WritePacket: the generated method (writePacket through m.bitsWriter) against the model's operation; a rejected
+   packet leaves the io.Writer untouched *)
+Theorem C04_write_packet_is_source : forall (w : gw) p,
+  match pa_res (write_packet_op p) with
+  | Ok _ => Muxer_WritePacket g_write w C_MpegTsPacketSize p =
+              ([], Some (w ++ concat (pa_groups (write_packet_op p)), pa_n (write_packet_op p), ENil))
+  | Err c => exists a e, Muxer_WritePacket g_write w C_MpegTsPacketSize p = ([], Some (w, a, e)) /\ werr e = Some c
+  | Panic => Muxer_WritePacket g_write w C_MpegTsPacketSize p = ([], None)
+  end.
+Proof. exact write_packet_of_generated. Qed.
+Print Assumptions C04_write_packet_is_source.
+
+(* the generated writePacket hands nothing to the BitsWriter when it returns an error *)
+Theorem C04_rejected_is_source : forall p target a e,
+  snd (WriteGen.writePacket p target) = Some (a, e) -> merror_is_nil e = false -> fst (WriteGen.writePacket p target) = [].
+Proof. exact writePacket_err_nothing. Qed.
+Print Assumptions C04_rejected_is_source.
+
+(* the translated WriteData runs: one stream, tables due, 400 payload bytes behind an adaptation field with a PCR *)
+Example C04_write_data_is_source_inhabited :
+  let s := fst (mux_run_parts (new_muxer 2) [MAdd (ex_es 257); MSetPCR 257]) in
+  let d := ex_data 257 (Some ex_af) 400 in
+  pa_res (snd (write_data s d)) = Ok tt /\ pa_n (snd (write_data s d)) = 5 * 188 /\
+  exists s',
+    Muxer_WriteData_until_loop calc_descriptor_length calc_pmt_section_length g_write ge_get to_pat g_wpsi g_wpkt
+      (wd_ret_src s) (wd_rest_src s)
+      (@nil (list Z)) C_MpegTsPacketSize (ms_period s) mux_pm (ms_pm_updated s) (pmt_of s) (ms_pmt_updated s)
+      (ms_pat_version s) (ms_pmt_version s) (ms_pat_cc s) (ms_pmt_cc s) [] [] [] (ms_es s) (ms_retransmit s) d
+    = Some (s', flat_of (snd (write_data s d))).
+Proof. split; [vm_compute; reflexivity|]. split; [vm_compute; reflexivity|]. eexists. vm_compute. reflexivity. Qed.
